@@ -144,10 +144,14 @@ def run_history(case):
             elif k == 'close':
                 p.close()
                 lines.append('ok')
+                if not p.closed and fail is None:
+                    fail = f'close() returned and the port is still open (device log {p.log[-6:]})'
             elif k == 'exit':
                 with p:
                     pass
                 lines.append('ok')
+                if not p.closed and fail is None:
+                    fail = f'leaving the with block returned and the port is still open (device log {p.log[-6:]})'
             if p.closed:
                 closed_seen = True
         lines.append(state_str(p, sl.n))
